@@ -1,8 +1,8 @@
 #!/bin/bash
-# usage: try_seed.sh <wt_id e.g. C01> <seed-dir-name> <check ids...>
+# usage: try_seed.sh <worktree dir or id (C01 -> /tmp/wt_C01)> <seed-dir-name> <check ids...>
 # copies the sub-agent's deliverables into /verif/seeded/<name>/, applies the patch to /repo, runs the named checks (quick),
 # runs the demonstration with and without the patch, restores /repo.
-WT=/tmp/wt_$1; NAME=$2; shift 2
+if [ -d "$1" ]; then WT=$1; else WT=/tmp/wt_$1; fi; NAME=$2; shift 2
 D=/verif/seeded/$NAME; mkdir -p $D
 [ -f $WT/seeded.diff ] && cp $WT/seeded.diff $D/patch.diff
 cp $WT/demo_*.py $D/ 2>/dev/null; cp $WT/notes.md $D/ 2>/dev/null
